@@ -441,8 +441,26 @@ func extractNormalize(c *Ctx) ([]sugarShape, string) {
 		var gen *ast.CallExpr
 		for _, s := range cc.Body {
 			ast.Inspect(s, func(n ast.Node) bool {
-				if call, ok := n.(*ast.CallExpr); ok && exprString(call.Fun) == "generate" && len(call.Args) == 2 {
-					gen = call
+				// the call that creates the helper rule: by what it is given (a rule name and a function
+				// that fills in a *ParserRule), whatever it is called and wherever it is declared (local
+				// closure, function, method)
+				if call, ok := n.(*ast.CallExpr); ok && len(call.Args) >= 2 && gen == nil {
+					var nameArg, fnArg ast.Expr
+					for _, a := range call.Args {
+						t := info.TypeOf(a)
+						if t == nil {
+							continue
+						}
+						if b, ok := t.Underlying().(*types.Basic); ok && b.Info()&types.IsString != 0 {
+							nameArg = a
+						}
+						if sig, ok := t.Underlying().(*types.Signature); ok && sig.Params().Len() == 1 && typeIs(sig.Params().At(0).Type(), "internal/ast", "ParserRule") {
+							fnArg = a
+						}
+					}
+					if nameArg != nil && fnArg != nil {
+						gen = &ast.CallExpr{Fun: call.Fun, Lparen: call.Lparen, Args: []ast.Expr{nameArg, fnArg}, Rparen: call.Rparen}
+					}
 				}
 				return true
 			})
@@ -469,9 +487,9 @@ func extractNormalize(c *Ctx) ([]sugarShape, string) {
 			}
 		}
 		// productions: the value assigned to r.Prods, possibly built by a same-package helper
-		fl, ok := gen.Args[1].(*ast.FuncLit)
-		if !ok {
-			return nil, "generate's second argument is not a function literal"
+		fl := funcLitOf(p, info, gen.Args[1])
+		if fl == nil {
+			return nil, "the function that fills in the helper rule's productions is neither a literal nor a declared function/method"
 		}
 		var classifyTerm func(e ast.Expr, env map[types.Object]string) string
 		classifyTerm = func(e ast.Expr, env map[types.Object]string) string {
